@@ -719,6 +719,7 @@ def check_trace_O(res, box, case):
     socks = box["socks"]
     rx_sock = box["lis"].transport.transport.sock
     later_mcast = []
+    routed_later = []     # (time of an answering block, the records its routing puts into a queue -- None: unknown, anything may follow)
     # which datagrams each reply must be based on (delivered trains, judged from the input: `c12.tc_pass`; its own verdicts are C12's)
     from . import c12 as _c12
     lis_blocks = [b for b in tr.blocks if b["kind"] == "qf" or b.get("lis") is box["lis"]]
@@ -833,29 +834,39 @@ def check_trace_O(res, box, case):
         # ---- a query that is answered: routing, destination, id, question echo -- one datagram or a truncated train, receive or timer block
         if b["asm"] and mine and b["kind"] in ("rx", "tc"):
             asm = b["asm"]
+            if asm.get("last_now") is None:      # an assembly of no packets at all (only a defective tree does that): judged like any other
+                asm = dict(asm, last_now=b["t"], first_now=b["t"])
             port = asm["port"]
             ucast = [g for g in groups if not g["mcast"]]
             mnow = [g for g in groups if g["mcast"]]
-            impl_srcs = sorted({(src_of[d][0], src_of[d][1]) for d in asm["datas"] if d in src_of})
+            # this block's querier (address and port) and, third review, the INPUT class of finding D36: truncated datagrams from another
+            # source port of the SAME address are being held right now
+            q_ip = b["src"][0] if b["kind"] == "rx" else b["addr"]
+            sibling_held = [d for (k_, ds_) in held.items() if k_[0] == q_ip and k_[1] != port for d in ds_]
             for key_ in list(held):     # whatever this reply was based on is not waiting any more, whoever sent it
                 held[key_] = [d for d in held[key_] if d not in asm["datas"]]
                 if not held[key_]:
                     del held[key_]
-            if len(impl_srcs) > 1:
-                # second review 1(b): datagrams of different (address, port) sources taken for one query -- a finding; nothing else is judged
+            datas = own or b.get("want") or asm["datas"]
+            if own is not None:
+                datas = own
+            merged = [d for d in asm["datas"] if d in sibling_held]
+            if merged and set(asm["datas"]) <= set(own or []) | set(sibling_held):
+                # finding D36, decided from the input: the held datagrams of the same address' other port(s) were answered together with
+                # this querier's.  The finding is that merge and nothing else: the rest of the block is judged for the merged query
                 f_ = parsed_by_data.get(asm["datas"][0])
                 res.violate("C11:held-tc-merged-with-other-port",
-                            "datagrams from different sources %s (one address, different source ports) were answered as one query: the reply goes to %s "
-                            "with id %s; the other querier gets nothing" % (impl_srcs, [o["to_full"] for g in ucast for o in g["outs"]][:1],
-                                                                           f_["id"] if f_ else "?"), at)
-                continue
-            datas = own or b.get("want") or asm["datas"]
+                            "datagrams from different source ports of one address %s were answered as one query: the reply goes to %s with id %s; the "
+                            "other querier gets nothing" % (sorted({(src_of[d][0], src_of[d][1]) for d in asm["datas"] if d in src_of}),
+                                                           [o["to_full"] for g in ucast for o in g["outs"]][:1], f_["id"] if f_ else "?"), at)
+                datas = asm["datas"]
             pkts = [parsed_by_data.get(d) for d in datas]
             if not pkts or any(p is None for p in pkts):
+                routed_later.append((b["t"], None))
                 continue
             first = pkts[0]
-            srcs = {src_of.get(d) for d in datas}
-            src_full = next(iter(srcs)) if len(srcs) == 1 else None
+            # the reply goes to the querier of this block: the source of the datagram at hand, or of the held train the timer fires for
+            src_full = b["src_full"] if b["kind"] == "rx" else (src_of.get(own[-1]) if own else None)
             eu, em, el, dontcare = spec_routes(asm, pkts)
             got_u = set().union(*[set(o["ans"]) for g in ucast for o in g["outs"]]) if ucast else set()
             got_m = set().union(*[set(o["ans"]) for g in mnow for o in g["outs"]]) if mnow else set()
@@ -882,6 +893,7 @@ def check_trace_O(res, box, case):
                 res.violate("C11:multicast-now-set", "multicast at once %s, the property routes %s there (port %d, probe %s, %d datagram(s))" % (
                     sorted(uni.describe(i) for i in got_m)[:8], sorted(uni.describe(i) for i in em)[:8], port, probe, len(pkts)), at)
             b["expect_later"] = el - dontcare
+            routed_later.append((b["t"], el | dontcare))
             if len(ucast) > 1:
                 res.violate("C11:unicast-destination", "%d unicast replies for one query" % len(ucast), at)
             for g in ucast:
